@@ -10,9 +10,11 @@ import (
 // mis-executions visible.
 
 type gvar struct {
-	name string
-	ty   *Ty
-	ro   bool // loop counters etc. must not be assigned by generated statements
+	name     string
+	ty       *Ty
+	ro       bool // loop counters etc. must not be assigned by generated statements
+	maybeNil bool // a map or pointer that may be nil: never written through unless Panics
+	fresh    bool // a slice whose capacity equals its length (literal / make): aliasing is growth-policy independent
 }
 
 type gfunc struct {
@@ -55,6 +57,10 @@ type Gen struct {
 	inLit    bool
 	chLeft   int
 	impure   bool // the function being generated writes package-level state (directly or through a callee)
+	// shared: slice variables whose value has been copied (assigned, passed, returned). Appending to a
+	// shared slice is observable only through the growth policy, which Go leaves to the implementation
+	// (and which differs between []int32 and goatlang's []Value): such appends are never generated.
+	shared map[string]bool
 }
 
 func NewGen(r *rand.Rand, o GenOpts) *Gen { return &Gen{r: r, o: o} }
@@ -205,6 +211,17 @@ func isConst(e *E) bool {
 func (g *Gen) expr(t *Ty, depth int) *E {
 	vars := g.varsOf(t, false)
 	leaf := depth <= 0 || g.r.Intn(4) == 0
+	if t.K == "slice" && len(vars) > 0 && g.r.Intn(3) > 0 {
+		x := vars[g.r.Intn(len(vars))]
+		g.shared[x.name] = true
+		return &E{K: "var", Ty: t, Name: x.name}
+	}
+	if t.K == "slice" {
+		if c := g.callReturning(t, depth); c != nil && g.r.Intn(2) == 0 {
+			return c
+		}
+		return g.literal(t)
+	}
 	if leaf {
 		if len(vars) > 0 && g.r.Intn(4) > 0 {
 			return &E{K: "var", Ty: t, Name: vars[g.r.Intn(len(vars))].name}
@@ -560,7 +577,9 @@ func (g *Gen) callOf(f gfunc, depth int) *E {
 	if f.variadic {
 		vt := params[len(params)-1]
 		if vs := g.varsOf(vt, false); len(vs) > 0 && g.r.Intn(3) == 0 {
-			e.Args = append(e.Args, &E{K: "var", Ty: vt, Name: vs[g.r.Intn(len(vs))].name})
+			sv := vs[g.r.Intn(len(vs))]
+			g.shared[sv.name] = true
+			e.Args = append(e.Args, &E{K: "var", Ty: vt, Name: sv.name})
 			e.Spread = true
 		} else {
 			for i := g.r.Intn(4); i > 0; i-- {
@@ -697,6 +716,9 @@ func (g *Gen) stmt(depth int) []*S {
 			}
 		}
 		g.declare(gvar{name: name, ty: t})
+		if t.K == "slice" && len(s.Exprs) == 1 && s.Exprs[0].K == "var" {
+			g.shared[name] = true
+		}
 		return []*S{s}
 	case x < 34: // assignment
 		t := g.anyType()
@@ -704,7 +726,11 @@ func (g *Gen) stmt(depth int) []*S {
 		if lv == nil {
 			return nil
 		}
-		return []*S{{K: "assign", Lhs: []*E{lv}, Exprs: []*E{g.expr(t, depth)}}}
+		rhs := g.expr(t, depth)
+		if t.K == "slice" && lv.K == "var" {
+			g.shared[lv.Name] = rhs.K == "var" // the target now holds whatever the source holds
+		}
+		return []*S{{K: "assign", Lhs: []*E{lv}, Exprs: []*E{rhs}}}
 	case x < 42: // op-assignment
 		t := g.intTypes()[g.r.Intn(len(g.intTypes()))]
 		if g.o.Strings && g.r.Intn(5) == 0 {
@@ -781,7 +807,7 @@ func (g *Gen) stmt(depth int) []*S {
 		return []*S{{K: "break"}}
 	case x < 93 && len(g.results) >= 0 && !g.inMain():
 		return []*S{g.returnStmt(depth)}
-	case x < 97: // call statement
+	case x < 95: // call statement
 		if g.inLit {
 			return nil
 		}
@@ -819,9 +845,7 @@ func (g *Gen) stmt(depth int) []*S {
 		}
 		return append(pre, &S{K: "expr", E: c, NRes: len(f.results)})
 	default:
-		if g.o.Containers {
-			return g.containerStmt(depth)
-		}
+		return g.extraStmt(depth)
 	}
 	return nil
 }
@@ -836,6 +860,32 @@ func (g *Gen) nonConstOrLit(t *Ty) *E {
 }
 
 func (g *Gen) returnStmt(depth int) *S {
+	// return f(...): the callee's results are returned as they are (also with a spread argument)
+	if len(g.results) > 0 && !g.inLit && g.r.Intn(3) == 0 {
+		var cs []int
+		for i := 0; i < g.callable && i < len(g.funcs); i++ {
+			f := g.funcs[i]
+			if len(f.results) != len(g.results) {
+				continue
+			}
+			same := true
+			for j := range f.results {
+				if !f.results[j].Eq(g.results[j]) {
+					same = false
+				}
+			}
+			if same {
+				cs = append(cs, i)
+			}
+		}
+		if len(cs) > 0 {
+			f := g.funcs[cs[g.r.Intn(len(cs))]]
+			if !f.pure {
+				g.impure = true
+			}
+			return &S{K: "return", NRes: len(g.results), Exprs: []*E{g.callOf(f, 2)}}
+		}
+	}
 	s := &S{K: "return", NRes: len(g.results)}
 	for _, rt := range g.results {
 		s.Exprs = append(s.Exprs, g.expr(rt, depth))
@@ -999,7 +1049,7 @@ func (g *Gen) containerStmt(depth int) []*S {
 		if v.ro {
 			continue
 		}
-		if v.ty.K == "slice" {
+		if v.ty.K == "slice" && !g.shared[v.name] {
 			slices = append(slices, v)
 		}
 		if v.ty.K == "map" {
@@ -1043,6 +1093,7 @@ func (g *Gen) containerStmt(depth int) []*S {
 func (g *Gen) Program(id string) *Prog {
 	g.prog = &Prog{ID: id, Pkg: "main", Main: "Main"}
 	g.funcs = nil
+	g.shared = map[string]bool{}
 	g.nvar = 0
 	g.mark = 0
 	g.chLeft = 6
@@ -1117,6 +1168,9 @@ func (g *Gen) function(i int) {
 		fn.PTypes = append(fn.PTypes, t)
 		f.params = append(f.params, t)
 		g.declare(gvar{name: n, ty: t})
+		if t.K == "slice" {
+			g.shared[n] = true
+		}
 	}
 	if g.r.Intn(4) == 0 {
 		et := []*Ty{TInt, TString}[g.r.Intn(2)]
@@ -1130,6 +1184,7 @@ func (g *Gen) function(i int) {
 		f.variadic = true
 		fn.Variadic = true
 		g.declare(gvar{name: "va", ty: vt})
+		g.shared["va"] = true
 	}
 	nr := []int{0, 1, 1, 1, 2, 3}[g.r.Intn(6)]
 	for j := 0; j < nr; j++ {
